@@ -24,6 +24,7 @@ func init() {
 			"(R2) read rejects zero-length data ⇒ every encodeStreamDataMessage call passes data[:w] under the loop guard len(data)>0 with w=min(sendWindow,…) computed after the non-zero send-window token was taken; " +
 			"(R3) every messageKind constant has an encoder writing exactly that kind byte and an arm in read; read's upper bound is the largest constant; " +
 			"(R4) enqueue's close case cancels pending window increments and write-closes of the stream (read rejects both for a closed stream). " +
+			"(R5) the stream-open goroutine never closes the stream unconditionally; (R6, teardown reasons) the reader returns an error for exactly the reasons (per message kind) that were read and confirmed on the pinned tree and covered by R1–R4 — a new reason, such as refusing window increments on a half-closed stream, is reported, as is a dropped one; " +
 			"Not decided: absence of protocol violations that depend on message interleavings between the two sides (e.g. data racing a close), timing, and the readiness-channel invariant sendWindowReady⇔sendWindow>0 (assumed for R2).",
 		Assumptions: []string{
 			"sendWindowReady holds a token iff sendWindow > 0 (maintained under sendWindowLock; lockset part is C23)",
@@ -34,6 +35,7 @@ func init() {
 }
 
 func runC24(c *eng.Ctx) {
+	c24ReaderReasons(c)
 	read := c.MustFunc("R1", muxPkg, "Multiplexer.read")
 	enq := c.MustFunc("R1", muxPkg, "Multiplexer.enqueue")
 	if read == nil || enq == nil {
